@@ -415,6 +415,8 @@ class Struct(metaclass=MetaStruct):
 
     def __setstate__(self, state):
         self._buffer, self._offset = state
+        # rebuild the cached offsets and size as a view does
+        self.__dict__.update(self._from_buffer(*state).__dict__)
 
     @classmethod
     def _gen_data_paths(cls, base=None):
